@@ -453,6 +453,12 @@ def main():
     if conformance.get('status') == 'differs':
         # the stand-in disagrees with the real macro/crate on some template: a defect of the machinery, never of /repo
         extras.setdefault('undecided', []).append({'reason': 'shim-nonconformance', 'unit': 'conform', 'detail': json.dumps(conformance.get('failed'))[:300]})
+    if tier == 'thorough' and not no_evidence and os.environ.get('VERIF_MUTSWEEP') != '0':
+        try:
+            import mutsweep
+            extras.setdefault('report', {})['mutation_sweep'] = mutsweep.run(prop, limit=int(os.environ.get('VERIF_MUTSWEEP_N', '60')), seed=seed)
+        except Exception as e:  # informational
+            extras.setdefault('report', {})['mutation_sweep'] = {'error': str(e)[:200]}
     known = load_known()
     violations = []
     known_hits = []
